@@ -221,7 +221,7 @@ def tlv_end(data, pos=0):
 
 def event_features(ev):
     f = {'op': ev['op']}
-    for k in ('codec', 'def', 'chunk', 'rules', 'why', 'st', 'exc', 'guided', 'proj', 'cls', 'mode', 'via', 'rw', 'depth', 'sts', 'excs'):
+    for k in ('codec', 'def', 'chunk', 'rules', 'why', 'st', 'exc', 'guided', 'proj', 'cls', 'mode', 'via', 'rw', 'depth', 'sts', 'excs', 'path'):
         if k in ev:
             f[k] = ev[k]
     if ev['op'] == 'enc' and ev.get('st') == 'ok':
